@@ -181,7 +181,11 @@ impl Parser {
 
         match input.as_rule() {
             Rule::dot_function_call => {
-                let Some(function_type) = type_of_property.is_callable_allow_class(true) else {
+                // a class can be called (constructed) when it is a member of a MODULE; a field of an object holds an
+                // instance, which cannot
+                let may_be_a_class = matches!(lhs_ty, TypeLayout::Module(..));
+
+                let Some(function_type) = type_of_property.is_callable_allow_class(may_be_a_class) else {
                     return Err(vec![new_err(
                         ident_span,
                         &source_name,
